@@ -107,6 +107,8 @@ func checkC16(c *Ctx) {
 	pumpsCloseRing(c)
 	serverClose(c)
 	c.listenersReachable()
+	// teardown removes the subscriptions the connection registered: insert and remove agree on where a filter ends
+	c.endOfLevelsSignal()
 }
 
 // goroutineJoin: P7 Add/Done pairing for the goroutines teardown waits for.
